@@ -2,15 +2,15 @@
 
 Only *builds* (from the catalogue the specification prints) and *projects*; no expected value is computed here.
 
-Materials: the specification states two solid expansion laws, L_A = 1 + tau/10 and L_B = 1 + tau/20 with
-tau = (Tc - 25)/500, and fluids whose number density does not depend on temperature.  The classes below are HT9 /
+Materials: the specification states two solid expansion laws, L_A = 1 + tau/20 and L_B = 1 + tau/40 with
+tau = Tc/250 (tau = 0 is exactly 0.0 C, the input temperature of every component), and fluids whose number density does not depend on temperature.  The classes below are HT9 /
 Sodium with exactly those laws (the same device armi's own test_axialExpansionChanger.FakeMat uses).
 """
 from harness.armi_env import armi_ready
 
-SCALE = 0.2  # cm per catalogue length unit (pins 0.2..0.8 cm, duct 15/16 cm flat to flat)
-T0 = 25.0
-DT = 500.0  # one temperature level of the specification
+SCALE = 0.02  # cm per catalogue length unit (pins 0.2..0.9 cm, duct 15/16 cm flat to flat)
+T0 = 0.0  # input temperature of every component = level 0 (exactly 0.0 C on purpose)
+DT = 250.0  # one temperature level of the specification
 
 _cls = {}
 
@@ -27,13 +27,13 @@ def materials_():
         name = "C12MatA"
 
         def linearExpansionPercent(self, Tk=None, Tc=None):
-            return 0.02 * (units.getTc(Tc, Tk) - T0)
+            return 0.02 * units.getTc(Tc, Tk)
 
     class C12MatB(ht9.HT9):
         name = "C12MatB"
 
         def linearExpansionPercent(self, Tk=None, Tc=None):
-            return 0.01 * (units.getTc(Tc, Tk) - T0)
+            return 0.01 * units.getTc(Tc, Tk)
 
     class C12Fluid(sodium.Sodium):
         name = "C12Fluid"
@@ -54,11 +54,11 @@ def _flags(names):
     return f
 
 
-def make_component(name, ct):
+def make_component(name, ct, hot=0):
     from armi.reactor.components import Circle, Hexagon, UnshapedComponent
 
     mat = materials_()[ct["mat"]]()
-    base = {"Tinput": T0, "Thot": T0}
+    base = {"Tinput": T0, "Thot": T0 + DT * hot}
     if ct["cls"] == "Circle":
         c = Circle(name, mat, od=ct["od"] * SCALE, id=ct["idm"] * SCALE, mult=float(ct["mult"]), **base)
     elif ct["cls"] == "Hexagon":
@@ -69,13 +69,13 @@ def make_component(name, ct):
     return c
 
 
-def make_block(tname, bt, CT, height):
+def make_block(tname, bt, CT, height, hot=0):
     from armi.reactor.blocks import HexBlock
     from armi.reactor.components import DerivedShape, Hexagon
 
     b = HexBlock(tname, height=float(height))
     for cn in bt["comps"]:
-        b.add(make_component(cn, CT[cn]))
+        b.add(make_component(cn, CT[cn], hot))
     fl = materials_()["F"]
     b.add(DerivedShape("coolant", fl(), Tinput=T0, Thot=T0))
     b.add(Hexagon("intercoolant", fl(), Tinput=T0, Thot=T0, op=17.0, ip=16.0, mult=1.0))
@@ -106,9 +106,9 @@ def build_assembly(A, CT, BT):
     a.spatialGrid = grids.AxialGrid.fromNCells(numCells=1)
     a.spatialGrid.armiObject = a
     for t, hgt in zip(A["types"], A["hs"]):
-        a.add(make_block(t, BT[t], CT, hgt))
+        a.add(make_block(t, BT[t], CT, hgt, A.get("hot", 0)))
     if A.get("top"):
-        a.add(make_block(A["top"], BT[A["top"]], CT, A["hd"]))  # an ordinary block on top (not flagged DUMMY)
+        a.add(make_block(A["top"], BT[A["top"]], CT, A["hd"], A.get("hot", 0)))  # an ordinary block on top (not flagged DUMMY)
     else:
         a.add(make_dummy(A["hd"]))
     a.calculateZCoords()
